@@ -3,7 +3,7 @@
 set -u
 P=$1; NAME=${2:-$P}; WT=${WT:-/tmp/seed-$P}
 cd $WT/python || exit 2
-build() { /venv/bin/python setup.py build_ext --inplace >/dev/null 2>&1; }
+build() { touch _tskitmodule.c lib/tskit/*.c lib/subprojects/kastore/kastore.c; /venv/bin/python setup.py build_ext --inplace >/dev/null 2>&1; }
 demo() { PYTHONPATH=$WT/python timeout 900 /venv/bin/python $WT/SEED/demo.py > /tmp/seed-demo-$P.out 2>&1; echo $?; }
 git -C $WT checkout -q -- c python 2>/dev/null; git -C $WT apply $WT/SEED/patch.diff || { echo "patch does not apply to a clean tree"; exit 2; }
 build; WITH=$(demo); tail -2 /tmp/seed-demo-$P.out | cut -c1-300
